@@ -28,7 +28,7 @@ BankList == IF Wide
 SizeChoices == <<0, 1, 1, 2, 2, 2, 0, 1, 2, -1>>
 
 Slot(s, a, b, id, m) == [s |-> s, a |-> a, b |-> b, id |-> id, m |-> m]
-MethIdx(cls) == SelectSeq([i \in 1..Len(Methods) |-> i], LAMBDA i : Methods[i].cls = cls)
+MethIdx(cls) == SelectSeq([i \in 1..Len(Methods) |-> i], LAMBDA i : Methods[i].cls = cls /\ Methods[i].mode # "enumarg")
 AttrSlots(id, cls) == LET ms == MethIdx(cls) IN [i \in 1..Len(ms) |-> Slot("attr", cls, "", id, ms[i])]
 RECURSIVE ObjSlots(_, _, _)
 ObjSlots(first, n, cls) == IF n = 0 THEN <<>> ELSE AttrSlots(first, cls) \o ObjSlots(first + 1, n - 1, cls)
@@ -52,6 +52,7 @@ FillBank(sl) ==
          /\ todo' = Tail(todo) \o ObjSlots(nextid, n, cls)
          /\ UNCHANGED attr
 
+Target(kind) == IF kind \in {"R1", "R2"} THEN "T" ELSE kind
 SeqsOver(vals, maxn) == UNION {[1..n -> {vals[i] : i \in DOMAIN vals}] : n \in 0..maxn}
 
 FillAttr(sl) ==
@@ -74,8 +75,9 @@ FillAttr(sl) ==
             /\ UNCHANGED store
     [] m.ret = "obj" ->
          \* null, or any object of the target class that is in a bank
-         \E i \in 0..Len(objs[m.kind]) :
-            /\ attr' = attr @@ (key :> Obj(IF i = 0 THEN 0 ELSE objs[m.kind][i]))
+         \* a smart reference (R1, R2) refers to a T object
+         \E i \in 0..Len(objs[Target(m.kind)]) :
+            /\ attr' = attr @@ (key :> Obj(IF i = 0 THEN 0 ELSE objs[Target(m.kind)][i]))
             /\ todo' = Tail(todo) /\ UNCHANGED <<store, nextid, objs>>
 
 ENext == /\ todo # <<>>
